@@ -7,6 +7,7 @@ import Driver.Seq
 import Driver.Img
 import Sth.Model.Translate
 import Sth.Model.Recover
+import Sth.Model.CrashImage
 
 namespace Driver.Crash
 open Sth Driver Driver.Img
@@ -26,6 +27,7 @@ structure St where
   taint11 : Bool := false
   imgTaint11 : Bool := false
   upgradingOpen : Bool := false      -- the last op was the open that upgrades a legacy store
+  prevDisk : Disk := {}              -- the model's disk before the last operation
 deriving Repr
 
 def showRead (r : Driver.Seq.St → Bytes → (Mem × GetRes)) : Unit := ()
@@ -86,7 +88,26 @@ def step (st : St) (l : Line) : St × List Msg :=
           else
             let (mr, _) := readAllModel m' d' st.keys
             if mr = r0 then [] else [Msg.corr (tag ++ s!"recovery reads: model=[{",".intercalate mr}] impl=[{ra.get "r0"}]")]
-    let flags := [Msg.flag "crash-image"] ++ (if inTranslate then [Msg.flag "translate-crash"] else []) ++
+    -- (c) tie of Sth/Model/CrashImage.lean to the code: an image captured while an explicit Flush ran (hook points between
+    -- the file-system steps of the real commit, and every torn variant) must be one of the model's crash images of that flush
+    let dAfter := st.seq.store.disk
+    let inFlush := st.lastOp == "flush" && im.extra.isEmpty && !im.badIdxHdr && !im.badPriHdr
+    let evCount : Nat :=
+      (im.disk.pfiles.map fun (n, f) => (f.length - (fileOf st.prevDisk.pfiles n).length) + (if st.prevDisk.pfiles.has n then 0 else 1)).sum +
+      (im.disk.ifiles.map fun (n, f) => (f.length - (fileOf st.prevDisk.ifiles n).length) + (if st.prevDisk.ifiles.has n then 0 else 1)).sum +
+      (match im.disk.cidfile with | some f => (f.length - (st.prevDisk.cidfile.getD []).length) + (if st.prevDisk.cidfile.isSome then 0 else 1) | none => 0) +
+      (match im.disk.free with | some f => (f.length - (st.prevDisk.free.getD []).length) + (if st.prevDisk.free.isSome then 0 else 1) | none => 0)
+    let (corrImg, flagImg) :=
+      if !inFlush then ([], []) else
+      let stream := appendStream st.prevDisk dAfter
+      if crashImage st.prevDisk stream evCount false == im.disk then ([], [Msg.flag "flush-image-in-model"] ++
+        (if 0 < evCount && evCount < streamLength stream then [Msg.flag "flush-image-interior"] else []))
+      -- the file rolled over to was created before the file being left received its tail: its creation is not among the
+      -- first events, so the count is one too high
+      else if crashImage st.prevDisk stream (evCount - 1) true == im.disk then ([], [Msg.flag "flush-image-in-model"] ++ [Msg.flag "flush-image-early-rollover"])
+      else ([Msg.corr (tag ++ s!"image of a crash inside Flush is not the model's crash image after {evCount} of {streamLength stream} events")], [])
+    let corr := corr ++ corrImg
+    let flags := flagImg ++ [Msg.flag "crash-image"] ++ (if inTranslate then [Msg.flag "translate-crash"] else []) ++
       (if inTranslate && openRes = "err" then [Msg.flag "translate-crash-open-refused"] else []) ++ (if ra.get "tear" ≠ "none" then [Msg.flag "torn"] else []) ++
       [Msg.flag ("at:" ++ (point.splitOn ".").headD "")]
     -- recognisers of the known findings (decidable predicates on the image / history, not on the outcome)
@@ -117,7 +138,7 @@ def step (st : St) (l : Line) : St × List Msg :=
     let (seq', msgs) := Driver.Seq.step st.seq l'
     let after := seq'.spec
     let kind := match seq'.store.mem with | some m => m.kind | none => seq'.cfg.kind
-    let st1 := { st with seq := seq', lastOp := l.op, upgradingOpen := l.op == "open" && st.seq.needSync }
+    let st1 := { st with seq := seq', lastOp := l.op, upgradingOpen := l.op == "open" && st.seq.needSync, prevDisk := st.seq.store.disk }
     -- acknowledged effects
     let st2 :=
       if (l.op = "put" ∨ l.op = "rm") ∧ (res' = "ok" ∨ res' = "true") then
